@@ -116,7 +116,12 @@ def trim_case(task):
          'dx': 0.1, 'dy': 0.1, 'dz': 0.1}
     with quiet():
         fd = FiniteDifference(p, fd_order=order, verbose=False)
-    m = order // 2
+    # documented: an order other than 2, 4, 6, 8 falls back to 4
+    eff = order if order in (2, 4, 6, 8) else 4
+    m = eff // 2
+    if fd.fd_order != eff or fd.mask_len != m:
+        bad.append(('fallback-order', order, int(fd.fd_order),
+                    int(fd.mask_len)))
     f = np.arange(int(np.prod(shape)), dtype=float).reshape(shape) + 0.5
     f0 = f.copy()
     for fn, w in ((fd.cutoffmask, m), (fd.cutoffmask2, 2 * m)):
@@ -242,7 +247,7 @@ def main(tier):
         run.violation("C16:convert:range", "angles out of range", {})
     # trimming helpers
     ttasks = []
-    for o in ORDERS:
+    for o in ORDERS + (1, 3, 5, 7, 10, 12):
         for shape in [(20,), (20, 18), (20, 18, 19), (17,), (17, 17, 17)]:
             ttasks.append((o, shape))
     for t, r_ in zip(ttasks, runner.pmap(trim_case, ttasks, workers=4)):
